@@ -201,6 +201,9 @@ class Event:
     def in_ctx(self, kind: str) -> List[tuple]:
         return [c for c in self.ctx if c[0] == kind]
 
+    def attr_safe(self):
+        return self.d.get('attr')
+
     def depth(self) -> int:
         return len(self.in_ctx('inline'))
 
